@@ -269,6 +269,15 @@ func (fv *FuncVerifier) assumeTyped(st *State, v Term, t types.Type) {
 		}
 	case KSlice:
 		st.assume(mk(sortBool, "(>= %s 0)", slLen(v).S))
+		// a slice fits in the address space: len * sizeof(elem) <= MaxInt64
+		if et := elemType(t); et != nil {
+			if sz := safeSizeof(fv.subst(et)); sz > 1 {
+				lim := new(big.Int).Div(new(big.Int).Sub(new(big.Int).Lsh(big.NewInt(1), 63), big.NewInt(1)), big.NewInt(sz))
+				st.assume(mk(sortBool, "(<= %s %s)", slLen(v).S, lim.String()))
+			} else {
+				st.assume(mk(sortBool, "(<= %s 9223372036854775807)", slLen(v).S))
+			}
+		}
 	case KStruct:
 		if stt, ok := t.Underlying().(*types.Struct); ok {
 			for i := 0; i < stt.NumFields(); i++ {
@@ -282,6 +291,20 @@ func (fv *FuncVerifier) assumeTyped(st *State, v Term, t types.Type) {
 			}
 		}
 	}
+}
+
+var gcSizes = types.SizesFor("gc", "amd64")
+
+func safeSizeof(t types.Type) (sz int64) {
+	defer func() {
+		if recover() != nil {
+			sz = 1
+		}
+	}()
+	if _, ok := t.(*types.TypeParam); ok {
+		return 1
+	}
+	return gcSizes.Sizeof(t)
 }
 
 func (fv *FuncVerifier) deref(p Term, st *State, pos token.Pos) Term {
